@@ -114,12 +114,12 @@ def gen_default_dom(r, t):
 # ------------------------------------------------------------------------------------------------------------
 # interfaces
 # ------------------------------------------------------------------------------------------------------------
-# PK candidates (`_name|_id|id_|id`): dataset_name, _id, user_id, id_, id, tbl_name, valid_from (contains "id_")
-NAMES_CAND = ["dataset_name", "_id", "user_id", "id_", "id", "tbl_name", "valid_from"]
+# PK candidates (`"_name" in k or "_id" in k or "id_" in k or k == "id"`), the substring at the start, the end and in the middle
+NAMES_CAND = ["dataset_name", "_id", "user_id", "id_", "id", "tbl_name", "valid_from", "row_idx", "grid_x", "my_name_2", "_name"]
 NAMES_PLAIN = ["_rev", "a", "b", "foo", "bar_baz", "x1", "K", "lr", "epochs", "owner", "n_items", "width", "identity", "kwargs", "model_kwargs",
-               "params", "name", "ids", "idx"]
+               "params", "name", "ids", "idx", "pid", "id2", "ID", "Id"]
 TEXTS = ["the alpha thing", "dataset name", "learning rate used", "a thing", "some text here", "flag for verbosity", "Random seed",
-         "e.g. 5", "has [brackets] inside", "PK of nothing", "ends with dots..", "x"]
+         "e.g. 5", "has [brackets] inside", "PK of nothing", "etc. and so on", "x"]
 FK_TARGETS = ["user.id", "tbl.col", "other_table.dataset_name", "t.c"]
 HEADER_DOCS = ["", "Summary line.", "Summary line.\n\nLonger description here.", "A table of things", "  indented start"]
 
@@ -287,6 +287,18 @@ def arg_j(a):
 def column_j(c):
     return {"args": [arg_j(a) for a in c.args],
             "kws": [[k.arg, enc_val(fold_neg(k.value).value) if isinstance(fold_neg(k.value), ast.Constant) else {"code": ast.unparse(k.value).strip()}] for k in c.keywords]}
+
+
+def column_view(cj):
+    """the Column record (Sql.Column) of a canonical column: name, type argument, foreign key, keywords"""
+    args, kws = cj["args"], dict((k, v) for k, v in cj["kws"])
+    name = args[0]["c"] if args and "c" in args[0] and isinstance(args[0]["c"], str) else None
+    typ = next((a for a in args if "n" in a or "code" in a or a.get("f") in ("Enum", "ARRAY")), None)
+    fk = next((a["a"][0]["c"] for a in args if a.get("f") == "ForeignKey"), None)
+    return {"name": name, "type": typ, "foreign_key": fk, "primary_key": kws.get("primary_key") is True,
+            "nullable": kws["nullable"] if isinstance(kws.get("nullable"), bool) else None,
+            "default": {"v": kws["default"]} if "default" in kws else {}, "server_default": {"v": kws["server_default"]} if "server_default" in kws else {},
+            "comment": kws["comment"] if isinstance(kws.get("comment"), str) else None}
 
 
 def is_call(n, name):
@@ -559,7 +571,7 @@ MARKER = re.compile(r"\[PK\]|\[FK\(([^\]]*)\)\]")
 
 
 def doc_view(d):
-    """(has PK marker, FK targets, text): leading markers in any order, text without outer whitespace / trailing dots"""
+    """(has PK marker, FK targets, text): leading markers in any order, text without outer whitespace and without one terminal '.'"""
     s = (d or "").strip()
     pk, fks = False, []
     while True:
@@ -571,7 +583,7 @@ def doc_view(d):
         else:
             fks.append(m.group(1))
         s = s[m.end():].lstrip()
-    return pk, tuple(fks), s.rstrip(".").rstrip()
+    return pk, tuple(fks), (s[:-1] if s.endswith(".") else s).rstrip()
 
 
 def norm_typ(s):
@@ -722,7 +734,7 @@ def run(chk: core.Check) -> int:
         "hand-written model lean/CddVerif/Model/Sql.lean; abstractions: a type is a tree (string predicates on type strings = structural predicates; exercised on every rendered type), "
         "ast.unparse∘ast.parse is the identity on the emitted calls, the header docstring/comment machinery and generate_repr_method are not modelled, Literal members are plain strings "
         "(repr = quote + text + quote), ensure_valid_identifier is the identity on the generated table names",
-        "the oracle compares types as normalised Python expressions, descriptions up to outer whitespace and trailing dots, defaults with their Python type",
+        "the oracle compares types as normalised Python expressions, descriptions up to outer whitespace and one terminal '.', defaults with their Python type",
     ]
     chk.coverage["tables"] = {"column_type2typ": len(tables["column_type2typ"]), "typ2column_type": len(tables["typ2column_type"]),
                               "top_level_imports": len(tables["imports"]), "non_str_entries_dropped": tables["dropped_non_str"]}
@@ -763,7 +775,7 @@ def run(chk: core.Check) -> int:
     n_dis = {"ensure_pk": 0, "emit": 0, "parse": 0, "table_to_class": 0, "normal_form": 0}
     for idx, (c, r) in enumerate(zip(cases, res)):
         names = [nm for nm, _ in c["params"]]
-        ncand = sum(1 for nm in names if "_name" in nm or "_id" in nm or "id_" in nm or nm == "id")
+        ncand = sum(1 for nm in names if nm in NAMES_CAND)
         bump("n_params", len(names)); bump("n_candidates", ncand); bump("force", c["force"]); bump("style", c["style"])
         bump("header_doc_empty", not c["doc"]); bump("returns", bool(c.get("returns")))
         for (nm, p), mk in zip(c["params"], c["markers"]):
@@ -862,9 +874,9 @@ def run(chk: core.Check) -> int:
                     n_col += 1
                     chk.disagreement("C05 correspondence: param_to_sqlalchemy_column_calls", case, r, m)
                 continue
-            if jd(r["column"]) != jd(m["ok"]):
+            if jd(r["column"]) != jd(m["ok"]) or jd(column_view(r["column"])) != jd(m["view"]):
                 n_col += 1
-                chk.disagreement("C05 correspondence: param_to_sqlalchemy_column_calls", case, r["column"], m["ok"])
+                chk.disagreement("C05 correspondence: param_to_sqlalchemy_column_calls", case, [r["column"], column_view(r["column"])], [m["ok"], m["view"]])
                 continue
             if incl:
                 cols_for_parse.append((case, r, m["ok"]))
